@@ -535,6 +535,9 @@ func normAtom(t *Term, nilness func(*Term) int) Atom {
 			if m := in.Args[0]; m.Op == "call" && m.Name == "make" && len(m.Args) > 0 && strings.HasPrefix(m.Args[0].Name, "map[") {
 				return mkc(false) // lookup in a freshly made, never written map
 			}
+			if m := in.Args[0]; m.isConst() && m.Name == "nil" {
+				return mkc(false) // lookup in a nil map
+			}
 			if m := in.Args[0]; m.Op == "maplit" && in.Args[1].isConst() {
 				all := true
 				found := false
